@@ -168,6 +168,22 @@ def run_os(points, variant="plain", timeout=900):
     return _parse_os(_run(text, variant, timeout), ncol, len(points))
 
 
+def run_os_cols(points, names, variant="plain", timeout=900):
+    """like run_os, but the harness prints only the quantities `names`; returns (results, sub-layout) where the
+    sub-layout maps name -> (offset, length) in the reduced vectors"""
+    lay = layout(variant)["O"]
+    idx, sub, off = [], {}, 0
+    for n in names:
+        o, l = lay[n]
+        idx += list(range(o, o + l))
+        sub[n] = (off, l)
+        off += l
+    sub["__n__"] = (off, 0)
+    text = "select %d %s\nos %d\n" % (len(idx), " ".join(str(i) for i in idx), len(points)) + "\n".join(
+        " ".join(hexf(x) for x in flat_os(p)) for p in points) + "\n"
+    return _parse_os(_run(text, variant, timeout), off, len(points)), sub
+
+
 def run_osf(families, mode, variant="plain", timeout=900):
     """families: list of (base point, [target points]) with equal numbers of targets.  The harness evaluates
     the base model and then (mode & 1) moves the same object through the targets one after the other and/or
@@ -322,7 +338,7 @@ def compare_block(lay, A, B, skip=()):
     groups += [["nr." + n for n in GROUPS[g] if "nr." + n in lay] for g in ("1Lapprox", "2Lapprox")]
     for names in groups:
         cols = [lay[n][0] for n in names]
-        S = np.maximum(np.abs(A[:, cols]).max(axis=1), np.abs(B[:, cols]).max(axis=1))
+        S = np.maximum(np.nanmax(np.abs(A[:, cols]), axis=1), np.nanmax(np.abs(B[:, cols]), axis=1))
         for n in names:
             grp[n] = S
     kap = conditioning(lay, A)
